@@ -962,13 +962,137 @@ def random_scope_ops(rng, real, n):
     return ops
 
 
+# ================================================================== (d) on the interpreted screen: indented ANSI sections
+def screen_base(op):
+    return {"op": op, "w": 80, "what": "", "line": [], "ind": 0, "ops": [], "res": "ok"}
+
+
+def run_screen_case(case):
+    """case = {fmt: forced|ansistream, route: parent|section|scope, inds: [indentation per section], ops: [line(s) |
+    overwrite(s) | clear(s) | clearn(s, k)]}: section outputs of ONE decorated Output; route says how a section gets its
+    indentation: 'parent' - created while the parent output carries it (Output.section copies it), 'section' -
+    section.indent(n) after creation, 'scope' - every operation inside `with section.indent(n)`.
+    Every operation's bytes are tokenised into terminal operations (harness/engine/termbytes.py)."""
+    from clikit.api.io import Output
+    from clikit.formatter import AnsiFormatter
+    from clikit.io.output_stream import BufferedOutputStream
+
+    from harness.engine import termbytes
+
+    cols = os.environ.get("COLUMNS")
+    os.environ["COLUMNS"] = "80"
+    evs = [screen_base("new")]
+    try:
+        try:
+            Rec = G._rec_class()
+            forced = case["fmt"] == "forced"
+            rec = Rec(BufferedOutputStream(), None if forced else True)
+            parent = Output(rec, AnsiFormatter(forced=forced))
+            secs = []
+            for n in case["inds"]:
+                if case["route"] == "parent":
+                    with parent.indent(n):
+                        secs.append(parent.section())
+                else:
+                    secs.append(parent.section())
+                    if case["route"] == "section":
+                        secs[-1].indent(n)
+        except Exception as e:  # noqa
+            evs[0]["res"] = type(e).__name__
+            return evs
+        t = 0
+        for op in case["ops"]:
+            sec, n = secs[op["s"] - 1], case["inds"][op["s"] - 1]
+            ev = dict(screen_base("op"), what=op["op"] + ("/scope" if case["route"] == "scope" else ""), ind=n)
+            text = ""
+            if op["op"] in ("line", "overwrite"):
+                t += 1
+                text = "%s%d" % ("abcdefgh"[t % 8], t)
+                ev["line"] = list(text)
+            mark = len(rec.data)
+            try:
+                cm = sec.indent(n) if case["route"] == "scope" else None
+                try:
+                    if op["op"] == "line":
+                        sec.write_line(text)
+                    elif op["op"] == "overwrite":
+                        sec.overwrite(text)
+                    elif op["op"] == "clear":
+                        sec.clear()
+                    else:
+                        sec.clear(op["k"])
+                finally:
+                    if cm is not None:
+                        cm.__exit__(None, None, None)
+            except Exception as e:  # noqa
+                ev["res"] = type(e).__name__
+            ev["ops"] = termbytes.ops("".join(rec.data[mark:]))
+            evs.append(ev)
+        return evs
+    finally:
+        if cols is None:
+            os.environ.pop("COLUMNS", None)
+        else:
+            os.environ["COLUMNS"] = cols
+
+
+def screen_programs(rng, quick):
+    """every operation sequence up to a length over two sections (clear(n) only while the section holds n lines), for
+    each way of giving the sections their indentation; plus longer random ones over three sections"""
+    import itertools
+
+    menu = [("line", 1), ("line", 2), ("overwrite", 1), ("overwrite", 2), ("clear", 1), ("clear", 2), ("clearn", 1), ("clearn", 2)]
+    out = []
+    settings = [("parent", [2, 2]), ("section", [2, 3]), ("section", [3, 0]), ("scope", [2, 2]), ("section", [0, 2])]
+    for length in range(1, (3 if quick else 4) + 1):
+        for combo in itertools.product(menu, repeat=length):
+            cnt, ops, ok = {1: 0, 2: 0}, [], True
+            for name, sct in combo:
+                if name == "line":
+                    cnt[sct] += 1
+                elif name == "overwrite":
+                    cnt[sct] = 1
+                elif name == "clear":
+                    cnt[sct] = 0
+                else:
+                    if cnt[sct] < 1:
+                        ok = False
+                        break
+                    cnt[sct] -= 1
+                ops.append({"op": name, "s": sct, "k": 1})
+            if ok and any(o["op"] != "line" for o in ops[1:]) or ok and length >= 2 and ops[-1]["s"] == 1 and ops[0]["s"] == 2:
+                out.append(ops)
+    cases = []
+    for i, ops in enumerate(out):
+        for j in range(2 if quick else len(settings)):
+            route, inds = settings[(i + j) % len(settings)]
+            cases.append({"part": "screen", "fmt": "forced" if (i + j) % 3 else "ansistream", "route": route, "inds": inds, "ops": ops})
+    for i in range(150 if quick else 3000):
+        nsec = rng.randint(2, 3)
+        cnt, ops = [0] * nsec, []
+        for _ in range(rng.randint(3, 12)):
+            sct = rng.randint(1, nsec)
+            name = rng.choice(["line", "line", "overwrite", "clear", "clearn"])
+            k = 1
+            if name == "clearn":
+                if cnt[sct - 1] < 1:
+                    name = "line"
+                else:
+                    k = rng.randint(1, cnt[sct - 1])
+            cnt[sct - 1] = cnt[sct - 1] + 1 if name == "line" else 1 if name == "overwrite" else 0 if name == "clear" else cnt[sct - 1] - k
+            ops.append({"op": name, "s": sct, "k": k})
+        cases.append({"part": "screen", "fmt": rng.choice(["forced", "ansistream"]), "route": rng.choice(["parent", "section", "scope"]),
+                      "inds": [rng.choice([0, 1, 2, 3, 5]) for _ in range(nsec)], "ops": ops})
+    return cases
+
+
 # ================================================================== the check
 def batches(ctx, spec, module, cfg, traces, cases, name, size=30000):
     bt, bc, n = [], [], 0
     for t, c in zip(traces, cases):
         bt.append(t)
         bc.append(c)
-        n += sum(len(e.get("toks", ())) + len(e.get("msg", ())) for e in t) // 8 + len(t)
+        n += sum(len(e.get("toks", ())) + len(e.get("msg", ())) + len(e.get("ops", ())) for e in t) // 8 + len(t)
         if n > size:
             ctx.validate(spec, module, cfg, bt, cases=bc, name=name)
             bt, bc, n = [], [], 0
@@ -1006,6 +1130,14 @@ def run(ctx):
     batches(ctx, MSPEC, "MarkupTrace", "MarkupTrace.cfg", t1, c1, "recorded-renderings")
     t2, c2 = run_lines(ctx, quick)
     batches(ctx, LSPEC, "OutputLinesTrace", "OutputLinesTrace.cfg", t2, c2, "recorded-lines-and-scopes")
+    c3 = screen_programs(ctx.rng, quick)
+    t3 = [run_screen_case(c) for c in c3]
+    for c in c3:
+        ctx.count()
+        ctx.nontriv(("screen", norm(c)))
+    ctx.extra["section_screen_programs"] = len(c3)
+    ctx.sample({"section_screen_program": c3[len(c3) // 2]})
+    batches(ctx, LSPEC, "SectionScreenTrace", "SectionScreenTrace.cfg", t3, c3, "indented-sections-on-the-screen")
     ctx.exhaustive = True
 
 
@@ -1016,7 +1148,9 @@ def replay(ctx, path):
     ctx.nontriv(1)
     ctx.nontriv(2)
     ctx.sample({k: v for k, v in c.items() if k != "ops"} if "ops" in c else c)
-    if c["part"] == "lines":
+    if c["part"] == "screen":
+        ctx.validate(LSPEC, "SectionScreenTrace", "SectionScreenTrace.cfg", [run_screen_case(c)], cases=[c], name="replay")
+    elif c["part"] == "lines":
         ctx.validate(LSPEC, "OutputLinesTrace", "OutputLinesTrace.cfg", [run_lines_case(c)], cases=[c], name="replay")
     else:
         ctx.validate(MSPEC, "MarkupTrace", "MarkupTrace.cfg", [replay_markup(c)], cases=[c], name="replay")
